@@ -11,7 +11,7 @@ C. the summary vs measurements that need no model: length / line count of the sa
    instant, filter bounds vs the bounds passed.  `--color always` with a total that differs from the
    stdout length exactly by the SGR bytes -> known finding colour_enabled; anything else -> failure.
 """
-import json, os
+import json, time, os
 from collections import Counter
 from concurrent.futures import ThreadPoolExecutor
 import vlib
@@ -131,6 +131,57 @@ def check_scenario(ctx, sc, r, stats):
     return absd, nums
 
 
+def unprocessable_stage(ctx, scratch, rng, stats):
+    """Source sets in which NOTHING can be processed (empty files, files of a few bytes, missing
+    paths), alone and next to one good log, with no / one-sided / two-sided windows: the summary
+    must still report the run — resolved bounds under the right names, zero totals when nothing
+    was printed — and leave stdout untouched.  (The coordinator takes a separate return path when
+    no worker thread was created.)"""
+    import s4summary
+    d = os.path.join(scratch, "unproc")
+    os.makedirs(d, exist_ok=True)
+    empty, tiny, missing, good = [os.path.join(d, n) for n in ("empty.log", "tiny.log", "missing.log", "good.log")]
+    open(empty, "wb").close()
+    open(tiny, "wb").write(b"abc")
+    t0 = 1600000000 + rng.randrange(0, 10 ** 7)
+    lines = []
+    for k in range(5):
+        lines.append(time.strftime("%Y-%m-%dT%H:%M:%S", time.gmtime(t0 + 60 * k)) + "+00:00 good message %d" % k)
+    open(good, "wb").write(("\n".join(lines) + "\n").encode())
+    fmt = lambda t: time.strftime("%Y-%m-%dT%H:%M:%S", time.gmtime(t)) + "+00:00"
+    sets = [[empty], [tiny], [missing], [empty, tiny, missing], [tiny, empty], [empty, good], [good]]
+    for files in sets:
+        for wa, wb in ((None, None), (t0 - 100, None), (None, t0 + 1000), (t0 + 60, t0 + 120), (t0 - 5000, t0 - 4000)):
+            args = ["--color", "never", "--summary"]
+            if wa is not None:
+                args += ["-a", fmt(wa)]
+            if wb is not None:
+                args += ["-b", fmt(wb)]
+            rc, out, err = vlib.run_s4(args + files, env={"TZ": "UTC"}, timeout=60)
+            rc2, out2, err2 = vlib.run_s4([a for a in args if a != "--summary"] + files, env={"TZ": "UTC"}, timeout=60)
+            stats["unprocessable_runs"] += 1
+            case = dict(kind="unprocessable", files=[os.path.basename(f) for f in files], dt_after=wa, dt_before=wb,
+                        argv=args + [os.path.basename(f) for f in files])
+            if rc == 124 or rc < 0 or rc not in (0, 1):
+                ctx.failure(case, "exit status 0 or 1", rc)
+                continue
+            if out != out2:
+                ctx.failure(case, "stdout with --summary = stdout without", dict(with_summary=len(out), without=len(out2)))
+            p = s4summary.parse(err)["program"]
+            for key, want in (("filter_a", wa), ("filter_b", wb)):
+                got = p.get(key)
+                if (got.epoch if got is not None else None) != want:
+                    ctx.failure(case, "Datetime filter %s = %r" % ("-a" if key == "filter_a" else "-b", want),
+                                got.epoch if got is not None else None)
+            exp_msgs = 0
+            if good in files:
+                exp_msgs = sum(1 for k in range(5) if (wa is None or t0 + 60 * k >= wa) and (wb is None or t0 + 60 * k <= wb))
+            if p.get("printed_bytes") is not None and p["printed_bytes"] != len(out):
+                ctx.failure(case, "Printed bytes = |stdout| = %d" % len(out), p["printed_bytes"])
+            if p.get("printed_syslines") is not None and p["printed_syslines"] != exp_msgs:
+                ctx.failure(case, "Printed syslines = %d" % exp_msgs, p["printed_syslines"])
+
+
 def run(ctx):
     quick = ctx.quick()
     n = 160 if quick else 2500
@@ -164,6 +215,7 @@ def run(ctx):
                 continue
             cases.append(ct)
             case_sc.append(sc)
+    unprocessable_stage(ctx, scratch, rng, stats)
     workdir = os.path.join(vlib.CACHE, "cases", "C19")
     okb, bad, logb = pu.eval_cases(workdir, cases)
     if not okb:
@@ -190,7 +242,7 @@ def run(ctx):
         scenarios_compared_with_model=len(cases), model_disagreements=len(bad),
         bytes_eq_stdout=stats["bytes_eq_stdout"], bytes_eq_stdout_minus_sgr=stats["bytes_eq_stripped"],
         wc_l_checked=stats["wc_l_checked"], runs_with_uncounted_record_lines=stats["runs_with_uncounted_record_lines"],
-        windows=stats["windows"], generator_mismatch=stats["generator_mismatch"],
+        windows=stats["windows"], unprocessable_source_set_runs=stats["unprocessable_runs"], generator_mismatch=stats["generator_mismatch"],
         too_large_for_model_run=stats["too_large_for_model_run"],
         printed_messages_by_kind=dict(hist_kind),
         multibyte_separator_class=dict(scenarios=sum(1 for s in scs if s.get("mbsep")),
